@@ -320,8 +320,30 @@ func FoldedEq(p *Prog, argv []string) bool {
 	return false
 }
 
+// zone4Token: under a spec with a spec-level --, some token before the first command-line -- starts with a dash, is not
+// the start of a well-formed occurrence, and is one the implementation partly consumes or skips (BadKind 2). Whether the
+// search happens to visit it with options open depends on the order alternatives are tried in, so the zone is decided on
+// the command line itself: such a case is unclaimed as a whole.
+func zone4Token(p *Prog, argv []string) bool {
+	if !p.HasDD() {
+		return false
+	}
+	for j := 0; j < len(argv); j++ {
+		if argv[j] == "--" {
+			return false
+		}
+		if run, stop := ReadRun(p, argv, j); len(run) == 0 && stop == j && BadKind(p, argv, j) == 2 {
+			return true
+		}
+	}
+	return false
+}
+
 func Decide(p *Prog, n *NFA, argv []string) Verdict {
 	m := &m2{p: p, n: n, argv: argv, memo: map[string]bool{}, hasDD: p.HasDD()}
+	if zone4Token(p, argv) {
+		m.uncl, m.hard = true, true
+	}
 	used := make([]int, len(p.Args)+len(p.Opts))
 	acc := m.ok(cfg{q: n.Start}, used)
 	v := Verdict{Accept: acc, Unclaimed: (m.uncl && !acc) || m.hard || m.capped, Steps: m.steps}
@@ -342,6 +364,9 @@ func Admits(p *Prog, n *NFA, argv []string, want map[*ArgDecl][]string, wantO ma
 	m := &m2{p: p, n: n, argv: argv, memo: map[string]bool{}, want: want, wantO: wantO, hasDD: p.HasDD()}
 	if want == nil {
 		m.want = map[*ArgDecl][]string{}
+	}
+	if zone4Token(p, argv) {
+		m.uncl, m.hard = true, true
 	}
 	used := make([]int, len(p.Args)+len(p.Opts))
 	ok := m.ok(cfg{q: n.Start}, used)
